@@ -1361,10 +1361,20 @@ pub fn shape_hint(rng: &mut StdRng, schema: &RawSchema, idx: usize, depth: usize
 					// the inner target asks for one specific entry point (`Option<i128>`, `Option<&str>`
 					// …) whatever branch comes: the wrapper handed to `visit_some` on such a union
 					// has to forward every one of them
+					// (not `f64` where a decimal may come: `rust_decimal::Decimal::to_f64` has no executable
+					// stand-in in the model - the same exclusion as for a top-level `f64` target)
+					let has_decimal = schema.iter().any(|n| matches!(n.logical, Some(Logical::Decimal(..)) | Some(Logical::BigDecimal)));
 					let inner = if rng.gen_bool(0.5) {
 						Hint::Any
 					} else {
-						[Hint::I64, Hint::U64, Hint::I128, Hint::U128, Hint::F64, Hint::Str, Hint::Bytes, Hint::Ignored].choose(rng).unwrap().clone()
+						[Hint::I64, Hint::U64, Hint::I128, Hint::U128, Hint::F64, Hint::Str, Hint::Bytes, Hint::Ignored]
+							.iter()
+							.filter(|h| !(has_decimal && **h == Hint::F64))
+							.collect::<Vec<_>>()
+							.choose(rng)
+							.unwrap()
+							.clone()
+							.clone()
 					};
 					Hint::Option(Box::new(inner))
 				}
